@@ -29,7 +29,39 @@ F08_PROBES = {
     "contiguous": "subroutine s(a)\n  real, contiguous, pointer :: a(:)\nend subroutine s\n",
     "allocate-mold": "program p\n  allocate (a(10), mold = b)\nend program p\n",
     "open-newunit": "program p\n  open (newunit = lun, file = 'f.dat')\nend program p\n",
+    # the same constructs in their other syntactic positions
+    "contiguous-component": "module m\n  type t\n    real, pointer, contiguous :: v(:)\n  end type t\nend module m\n",
+    "contiguous-component-first": "module m\n  type t\n    real, contiguous, pointer :: v(:)\n  end type t\nend module m\n",
+    "contiguous-dummy": "subroutine s(a)\n  real, contiguous :: a(:)\nend subroutine s\n",
+    "codimension-component-attr": "module m\n  type t\n    real, allocatable, codimension[:] :: c\n  end type t\nend module m\n",
+    "codimension-alloc": "program p\n  real, allocatable, codimension[:] :: x\nend program p\n",
+    "block-named": "program p\n  b1: block\n    integer :: k\n  end block b1\nend program p\n",
+    "block-in-do": "program p\n  do i = 1, 2\n    block\n      k = i\n    end block\n  end do\nend program p\n",
+    "block-in-if": "subroutine s\n  if (a) then\n    block\n      k = 1\n    end block\n  end if\nend subroutine s\n",
+    "exit-block": "program p\n  b1: block\n    exit b1\n  end block b1\nend program p\n",
+    "critical-named": "program p\n  c1: critical\n    x = 1\n  end critical c1\nend program p\n",
+    "critical-in-do": "program p\n  do i = 1, 2\n    critical\n      x = 1\n    end critical\n  end do\nend program p\n",
+    "do-concurrent-mask": "program p\n  do concurrent (i = 1:n, j = 1:m, a(i) > 0)\n    a(i) = 0\n  end do\nend program p\n",
+    "do-concurrent-label": "program p\n  do 10 concurrent (i = 1:n)\n    a(i) = 0\n10 continue\nend program p\n",
+    "do-concurrent-named": "program p\n  lp: do concurrent (i = 1:n)\n    a(i) = 0\n  end do lp\nend program p\n",
+    "do-concurrent-comma": "program p\n  do, concurrent (i = 1:n)\n    a(i) = 0\n  end do\nend program p\n",
+    "error-stop-int": "program p\n  error stop 3\nend program p\n",
+    "error-stop-bare": "program p\n  error stop\nend program p\n",
+    "error-stop-in-if": "program p\n  if (x > 0) error stop 'neg'\nend program p\n",
+    "allocate-mold-only": "program p\n  allocate (a, mold = b)\nend program p\n",
+    "allocate-mold-stat": "program p\n  allocate (a(10), stat = ierr, mold = b)\nend program p\n",
+    "open-newunit-first": "program p\n  open (file = 'f.dat', newunit = lun, status = 'old')\nend program p\n",
+    "submodule-ancestor": "submodule (parent_m:anc) sm\nend submodule sm\n",
+    "submodule-bare-end": "submodule (parent_m) sm\nend\n",
+    "format-unlimited": "program p\n10 format (*(i5, 1x))\nend program p\n",
 }
+# F2008 features the F2003 parser accepts as well (known finding F-C17-1: Prefix_Spec of the 2003
+# grammar lists IMPURE and MODULE)
+F08_ACCEPTED_BY_F03 = {
+    "impure": "impure elemental subroutine s(a)\n  real, intent(in) :: a\nend subroutine s\n",
+    "module-subroutine-prefix": "module m\n  interface\n    module subroutine s(a)\n      real :: a\n    end subroutine s\n  end interface\nend module m\n",
+}
+F08_PROBES.update(F08_ACCEPTED_BY_F03)
 
 
 def fold(text):
@@ -71,10 +103,13 @@ def run_case(case):
         src = F08_PROBES[name]
         o3 = real.try_parse(src, std="f2003", free=True)
         o8 = real.try_parse(src, std="f2008", free=True)
+        if name in F08_ACCEPTED_BY_F03 and o3.kind != "tree":
+            res["findings"].append({"signature": "probe-now-rejected:" + name, "what": "F2003 parser now rejects %s, listed as known finding F-C17-1: remove the finding" % name,
+                                    "replay": {"case": case, "source": src}})
         if o8.kind != "tree":
             res["findings"].append({"signature": "f2008-rejects:" + name, "what": "F2008 parser rejects %s: %s" % (name, str(o8.exc)[:150]), "replay": {"case": case, "source": src}})
         if o3.kind == "tree":
-            res["findings"].append({"signature": "f2003-accepts:" + name, "what": "F2003 parser accepts the F2008-only construct %s" % name, "replay": {"case": case, "source": src}})
+            res["findings"].append({"signature": "pred:f2003_prefix_spec_has_f2008_prefixes" if name in F08_ACCEPTED_BY_F03 else "f2003-accepts:" + name, "what": "F2003 parser accepts the F2008-only construct %s" % name, "replay": {"case": case, "source": src}})
         return res
     if kind == "f08gen":
         p = gen.gen_program(case["seed"], std="f2008")
